@@ -302,14 +302,16 @@ Definition e2e_tree : item :=
         Item COMPOSITE 6 1 (Some (2, 2)) [] []]].
 Definition e2e_args : sr_args :=
   Args [Evd 3 0 1 11; Evd 1 0 1 11; Evd 2 2 2 21; Evd 1 0 1 11] (CSequence [e2e_tree]) true true
-       true false true (Some 7) (Some 8) (Some [Evd 20 2 1 5; Evd 20 2 1 5]) true.
+       true false true (Some 7) (Some 8) (Some [Evd 20 2 1 5; Evd 20 2 1 5]) true
+       (Extras (Some 3) (Some 4) (Some [5; 6]) None).
 
 Lemma e2e_example :
   exists d, sr_init Enhanced e2e_args = Ok d /\ srread d = Ok (Enhanced, d) /\
     is_report (d_content d) = true /\
     get_evidence d true = [(1, 11, 1, 0); (2, 21, 2, 2)] /\
     get_evidence d false = [(1, 11, 1, 0); (2, 21, 2, 2); (1, 11, 3, 0)] /\
-    d_pred d = Some [(1, [(5, [(20, 2); (20, 2)])])] /\ d_observer d = Some (7, 8).
+    d_pred d = Some [(1, [(5, [(20, 2); (20, 2)])])] /\ d_observer d = Some (7, 8) /\
+    d_extras d = Recorded (Some 3) (Some 4) (Some [5; 6]) None.
 Proof. eexists. split; [vm_compute; reflexivity|]. repeat split. Qed.
 
 (* ---- key object documents parsed back ------------------------------------------------ *)
@@ -475,7 +477,7 @@ Lemma ko_init_iff : forall ev ts root d,
   ko_init ev ts root = Ok d <->
   ev <> [] /\ ts = true /\
   exists st sers oth, collect_evidence true ev root = Ok ([(st, sers)], oth) /\
-    d = Doc ko_code root [(st, sers)] [] None false false false None.
+    d = Doc ko_code root [(st, sers)] [] None false false false None no_recorded.
 Proof.
   intros ev ts root d. unfold ko_init. split.
   - intros H. destruct ev as [|e0 ev]; [discriminate|]. destruct ts; cbn [negb] in H; [|discriminate].
@@ -519,10 +521,103 @@ Qed.
 Lemma parsed_keeps_evidence : forall c a d d', sr_init c a = Ok d -> srread d = Ok (c, d') ->
   d_cls d' = d_cls d /\ d_current d' = d_current d /\ d_other d' = d_other d /\ d_pred d' = d_pred d /\
   d_complete d' = d_complete d /\ d_verified d' = d_verified d /\ d_final d' = d_final d /\
-  d_observer d' = d_observer d /\
+  d_observer d' = d_observer d /\ d_extras d' = d_extras d /\
   (forall b, get_evidence d' b = get_evidence d b) /\
   (forall b, get_evidence_series d' b = get_evidence_series d b).
 Proof.
   intros c a d d' H HR. rewrite (srread_spec _ _ _ H) in HR. injection HR as <-.
   destruct d. repeat split.
 Qed.
+
+(* ---- arguments that are only recorded: institution, department, performed procedure codes,
+   requested procedures.  They take part in NO guard of any of the three constructors: whatever
+   they are, the verdict (acceptance, error class) and everything else in the document are the
+   same - in particular the verification details are demanded, and recorded as given, whether or
+   not an institution name (or anything else) is supplied. ------------------------------------- *)
+Definition set_extras (a : sr_args) (x : extras) : sr_args :=
+  Args (a_evidence a) (a_content a) (a_root_cs a) (a_ts_ok a) (a_complete a) (a_final a)
+       (a_verified a) (a_observer a) (a_org a) (a_previous a) (a_record a) x.
+
+Definition set_recorded (d : doc) (w : recorded) : doc :=
+  Doc (d_cls d) (d_content d) (d_current d) (d_other d) (d_pred d)
+      (d_complete d) (d_verified d) (d_final d) (d_observer d) w.
+
+Definition map_ok {A B} (f : A -> B) (r : res A) : res B :=
+  match r with Ok x => Ok (f x) | Err k => Err k end.
+
+Lemma set_extras_same : forall a, set_extras a (a_extras a) = a.
+Proof. intros []. reflexivity. Qed.
+
+Lemma base_extras_frame : forall cls a x,
+  sr_base_init cls (set_extras a x) =
+  map_ok (fun d => set_recorded d (record_extras x)) (sr_base_init cls a).
+Proof.
+  intros cls a x. rewrite !sr_base_init_spec. unfold sr_base_spec, verif_missing, set_extras, built_doc, map_ok.
+  cbn [a_evidence a_content a_root_cs a_ts_ok a_complete a_final a_verified a_observer a_org a_previous
+       a_record a_extras].
+  destruct (a_evidence a) as [|e0 ev]; [reflexivity|].
+  destruct (a_ts_ok a); cbn [negb]; [|reflexivity].
+  destruct (a_verified a && (negb (is_some (a_observer a)) || negb (is_some (a_org a)))); [reflexivity|].
+  destruct (single_root (a_content a)) as [root|]; [|reflexivity].
+  destruct (negb (i_rel root =? 0)); [reflexivity|].
+  destruct (negb (vt_eqb (i_vt root) CONTAINER)); [reflexivity|].
+  destruct (collect_evidence (a_root_cs a) (e0 :: ev) root) as [cu|k]; reflexivity.
+Qed.
+
+Lemma extras_frame : forall c a x,
+  sr_init c (set_extras a x) = map_ok (fun d => set_recorded d (record_extras x)) (sr_init c a).
+Proof.
+  intros c a x. unfold sr_init. rewrite base_extras_frame.
+  destruct (sr_base_init (class_code c) a) as [d0|k]; cbn [map_ok bind]; [|reflexivity].
+  destruct d0 as [k0 ct cur oth pr co ve fi ob ex]. unfold set_recorded.
+  cbn [d_content d_cls d_current d_other d_pred d_complete d_verified d_final d_observer].
+  destruct c; try reflexivity; (destruct (has_scoord3d ct); reflexivity).
+Qed.
+
+(* the verdict does not depend on them *)
+Lemma extras_verdict : forall c a x k,
+  sr_init c (set_extras a x) = Err k <-> sr_init c a = Err k.
+Proof.
+  intros c a x k. rewrite extras_frame. destruct (sr_init c a); cbn [map_ok]; split; intros H; try discriminate; exact H.
+Qed.
+
+Lemma extras_recorded : forall c a d, sr_init c a = Ok d ->
+  d_extras d = record_extras (a_extras a) /\
+  w_institution (d_extras d) = x_institution (a_extras a) /\
+  w_department (d_extras d) =
+    (match x_institution (a_extras a) with Some _ => x_department (a_extras a) | None => None end) /\
+  w_codes (d_extras d) = Some (match x_codes (a_extras a) with Some l => l | None => [] end) /\
+  w_requests (d_extras d) = x_requests (a_extras a).
+Proof.
+  intros c a d H. apply sr_init_iff in H. destruct H as [root [cu [_ [-> _]]]].
+  cbn [built_doc d_extras]. repeat split.
+Qed.
+
+(* the verification clause, whatever else is supplied *)
+Lemma verification_whatever_else : forall c a x,
+  (a_verified a = true -> (a_observer a = None \/ a_org a = None) ->
+     sr_init c (set_extras a x) = Err "ValueError") /\
+  (forall d, sr_init c (set_extras a x) = Ok d ->
+     d_verified d = a_verified a /\
+     (a_verified a = true ->
+        exists n o, a_observer a = Some n /\ a_org a = Some o /\ d_observer d = Some (n, o)) /\
+     (a_verified a = false -> d_observer d = None)).
+Proof.
+  intros c a x. split.
+  - intros Hv Hn. apply verified_needs_details; assumption.
+  - intros d H. destruct (verified_recorded _ _ _ H) as [V1 [_ [_ [V2 V3]]]]. auto.
+Qed.
+
+(* the scenario of a verified document without organization but with an institution name:
+   refused by all three classes; with both details: accepted, the details recorded as given,
+   the institution recorded as institution *)
+Definition ver_args (org : option Z) (x : extras) : sr_args :=
+  Args [Evd 1 0 1 11] (CDataset (Item CONTAINER 1 0 None [] [Item TEXT 2 1 None [] []])) true true
+       true true true (Some 7) org None true x.
+Lemma verification_example :
+  sr_init Comprehensive3D (ver_args None (Extras (Some 3) (Some 4) None None)) = Err "ValueError" /\
+  sr_init Comprehensive (ver_args None (Extras (Some 3) None None None)) = Err "ValueError" /\
+  sr_init Enhanced (ver_args None (Extras (Some 3) None None (Some [9]))) = Err "ValueError" /\
+  exists d, sr_init Comprehensive3D (ver_args (Some 8) (Extras (Some 3) (Some 4) None (Some [9]))) = Ok d /\
+    d_observer d = Some (7, 8) /\ d_extras d = Recorded (Some 3) (Some 4) (Some []) (Some [9]).
+Proof. repeat split. eexists. split; [vm_compute; reflexivity|]. split; reflexivity. Qed.
